@@ -534,6 +534,95 @@ def em_alternation_with_aligner(d, ctx):
         force_aligner=True, allow_mask=False)
 
 
+def _builtin_alignment(d, ctx, kind):
+    """integration models with their built-in spatial/spectral alignment
+    switched on: every E-step inside fit is the Bayes posterior of *some* class
+    permutation (per frequency) of the spatial stream, that permutation is not
+    worse than the identity under the alignment's own criterion, and every
+    M-step is the documented estimator for the affiliation it was handed"""
+    case = mm.draw_case(
+        d, [kind], degenerate=False, general_position=True,
+        single_precision=False, allow_scale=False, allow_num_classes=False,
+        regular_share=False, positive_saliency_only=True, stable_only=True,
+        max_K=3, max_D=4, max_iterations=3)
+    case.opts['inline_permutation_alignment'] = True
+    case.omit = set(getattr(case, 'omit', ())) - {'inline_permutation_alignment'}
+    if case.opts.get('spatial_weight', 1.0) == 0.0:
+        case.opts['spatial_weight'] = 0.5
+    if case.opts.get('spectral_weight', 1.0) == 0.0:
+        case.opts['spectral_weight'] = 2.0
+    case.iterations = d.choice([2, 3, 4])
+    ctx.describe(**case.describe())
+    ctx.label(kind, f'sw={case.opts.get("spatial_weight")}/{case.opts.get("spectral_weight")}',
+              f'eps={case.opts.get("affiliation_eps")}')
+    from pb_bss import _verif
+    trace = []
+
+    def cb(**k):
+        trace.append((k['model'], np.array(k['affiliation'], copy=True),
+                      None if k['quadratic_form'] is None
+                      else np.array(k['quadratic_form'], copy=True)))
+    _verif.register(cb)
+    try:
+        ctx.lib(mm.fit, case, allow_if=mm.explicit_refusal)
+    finally:
+        _verif.unregister(cb)
+    if len(trace) != case.iterations:
+        raise Borderline('no per-iteration trace (hook not available)')
+    F, K, N = case.lead[0], case.K, case.N
+    eps = case.opts.get('affiliation_eps', 1e-10) or 0.0
+    checked = 0
+    for it, (model, aff, q) in enumerate(trace):
+        if mm.ill_conditioned(model, case):
+            raise Borderline('fit sits on a numerical guard')
+        if it > 0:
+            prev = trace[it - 1][0]
+            spatial, spectral = mm.oracle_stream_log_pdfs(prev, case)
+            spatial = prev.spatial_weight * spatial
+            spectral = prev.spectral_weight * spectral
+            wb = np.broadcast_to(np.asarray(mm.weight_broadcast(prev, case), dtype=float),
+                                 (F, K, N))
+
+            def post_of(lp, w):
+                m = lp.max(axis=0, keepdims=True)
+                num = w * np.exp(lp - m)
+                p = num / np.maximum(num.sum(axis=0, keepdims=True), np.finfo(float).tiny)
+                return np.clip(p, eps, 1 - eps) if eps else p
+
+            def aux(lp):
+                a = np.exp(lp - lp.max(axis=0, keepdims=True))
+                a = a / np.maximum(a.sum(axis=0, keepdims=True), np.finfo(float).tiny)
+                return float(np.sum(a * lp))
+            for f in range(F):
+                ident = aux(spatial[f] + spectral[f])
+                matches = []
+                for perm in itertools.permutations(range(K)):
+                    lp = spatial[f][list(perm)] + spectral[f]
+                    if np.allclose(post_of(lp, wb[f]), aff[f], rtol=0, atol=1e-7):
+                        matches.append((aux(lp), perm))
+                require(matches, 'builtin-alignment-e-step-is-no-permutation-of-the-stream-posterior',
+                        f'iteration {it} bin {f}: no class permutation of the spatial '
+                        f'stream reproduces the affiliation handed to the M-step', kind=kind)
+                best = max(a for a, _ in matches)
+                require(best >= ident - 1e-7 * (1 + abs(ident)),
+                        'builtin-alignment-worse-than-identity',
+                        f'iteration {it} bin {f}: criterion {best} < identity {ident}', kind=kind)
+                checked += 1
+        compare_mstep(case, model, mstep_oracle(case, aff, q), it)
+    ctx.nontrivial(checked > 0 and K >= 2)
+
+
+def _make_builtin(kind, quick, thorough):
+    @subcheck(SUBCHECKS, f'em_builtin_alignment_{kind}', quick=quick, thorough=thorough)
+    def fn(d, ctx, _kind=kind):
+        _builtin_alignment(d, ctx, _kind)
+    return fn
+
+
+_make_builtin('gcacgmm', 120, 2000)
+_make_builtin('vmfcacgmm', 120, 2000)
+
+
 def _make_em(kind, quick, thorough, **kw):
     @subcheck(SUBCHECKS, f'em_alternation_{kind}', quick=quick, thorough=thorough)
     def fn(d, ctx, _kind=kind, _kw=kw):
